@@ -116,6 +116,12 @@ type internalError struct {
 	origError         error
 }
 
+// Unwrap exposes the wrapped error so that errors.Is / errors.As reach the
+// error returned by a node or a component (e.g. a tool's own error).
+func (i *internalError) Unwrap() error {
+	return i.origError
+}
+
 func (i *internalError) Error() string {
 	sb := strings.Builder{}
 	sb.WriteString(string("[" + i.typ + "]\n"))
